@@ -89,9 +89,25 @@ pub fn make_key(pw: &Option<String>, kf: &Option<Vec<u8>>) -> DatabaseKey {
         k = k.with_password(p);
     }
     if let Some(f) = kf {
-        k = k.with_keyfile(&mut &f[..]).unwrap();
+        // the key file arrives through a reader that delivers it in pieces (a pipe, a chained reader): a conforming `Read`
+        let cap = [usize::MAX, 1, 7, 512, 4096][(f.len() + f.first().copied().unwrap_or(0) as usize) % 5];
+        k = k.with_keyfile(&mut PieceReader { data: f, pos: 0, cap }).unwrap();
     }
     k
+}
+
+struct PieceReader<'a> {
+    data: &'a [u8],
+    pos: usize,
+    cap: usize,
+}
+impl<'a> std::io::Read for PieceReader<'a> {
+    fn read(&mut self, buf: &mut [u8]) -> std::io::Result<usize> {
+        let n = buf.len().min(self.cap).min(self.data.len() - self.pos);
+        buf[..n].copy_from_slice(&self.data[self.pos..self.pos + n]);
+        self.pos += n;
+        Ok(n)
+    }
 }
 
 const PASSWORDS: &[&str] = &["", "a", "demopass", "pässwörd", "trailing ", " leading", "nul\0inside", "日本語", "A", "a\n"];
@@ -113,7 +129,7 @@ fn gen_keyfile(rng: &mut Rng) -> (Vec<u8>, &'static str) {
             _ => "\r\n\t".to_string(),
         }
     };
-    match rng.below(14) {
+    match rng.below(19) {
         0 => (rng.bytes(32), "raw32"),
         1 => {
             let n = *rng.pick(&[0usize, 1, 31, 33, 64, 200, 65_537, 70_000, 200_000]);
@@ -155,7 +171,36 @@ fn gen_keyfile(rng: &mut Rng) -> (Vec<u8>, &'static str) {
         10 => (b"<KeyFile><Meta><Version>1.00</Version></Meta><Key></Key></KeyFile>".to_vec(), "xml-no-data"),
         11 => (b"<KeyFile><Key><Data>not base64!</Data></Key></KeyFile>".to_vec(), "xml-v1-not-base64"),
         12 => (b"<KeyFile><Key><Data>AAAA</Data></Key>".to_vec(), "xml-truncated"),
-        _ => (b"<Not><A><KeyFile></KeyFile></A></Not>".to_vec(), "xml-other"),
+        13 => (b"<Not><A><KeyFile></KeyFile></A></Not>".to_vec(), "xml-other"),
+        14 => {
+            // another kind of XML document that happens to contain Data / Version elements (root is not KeyFile)
+            let t = hex::encode(rng.bytes(8));
+            (format!("<?xml version=\"1.0\"?><Workbook><Worksheet><Cell><Data Type=\"String\">{}</Data></Cell></Worksheet><Version>2.0</Version><Key><Data>{}</Data></Key></Workbook>", t, hex::encode(rng.bytes(32))).into_bytes(), "xml-other-with-data")
+        }
+        15 | 16 => {
+            // a genuine key file written with a UTF-8 byte order mark (what .NET's XmlWriter and Notepad produce)
+            let k = rng.bytes(32);
+            let body = if rng.chance(1, 2) {
+                format!("<?xml version=\"1.0\" encoding=\"utf-8\"?><KeyFile><Meta><Version>1.00</Version></Meta><Key><Data>{}</Data></Key></KeyFile>", b64(&k))
+            } else {
+                format!("<?xml version=\"1.0\" encoding=\"utf-8\"?><KeyFile><Meta><Version>2.0</Version></Meta><Key><Data>{}</Data></Key></KeyFile>", hex::encode_upper(&k))
+            };
+            let mut v = vec![0xEF, 0xBB, 0xBF];
+            v.extend_from_slice(body.as_bytes());
+            (v, "xml-with-bom")
+        }
+        17 => {
+            // version 2 with Key before Meta
+            let k = rng.bytes(32);
+            (format!("<KeyFile><Key><Data>{}</Data></Key><Meta><Version>2.0</Version></Meta></KeyFile>", hex::encode(&k)).into_bytes(), "xml-v2-key-first")
+        }
+        _ => {
+            // version 1 whose base64 payload lacks its padding or carries one '=' too many: not base64, the text itself is the key
+            let k = rng.bytes_pick(&[31usize, 32, 34]);
+            let mut t = b64(&k);
+            if rng.chance(1, 2) { t = t.trim_end_matches('=').to_string(); } else { t.push('='); }
+            (format!("<KeyFile><Meta><Version>1.00</Version></Meta><Key><Data>{}</Data></Key></KeyFile>", t).into_bytes(), "xml-v1-padding-off")
+        }
     }
 }
 
